@@ -35,8 +35,12 @@ fn c15_chunk() {
     let other = Chunk::new(Bytes::from(vec![9u8, 9, 9, 9]));
     let addr: XorName = *wanted.address().xorname();
     let key = NetworkAddress::from_chunk_address(ChunkAddress::new(addr)).to_record_key();
-    let what = choice(5);
+    let what = choice(7);
+    let other_rec = Record { key: key.clone(), value: try_serialize_record(&other, RecordKind::Chunk).unwrap().to_vec(), publisher: None, expires: None };
     let reply: Result<Record, NetworkError> = match what {
+        // error outcomes of the network layer that carry a record from too few / disagreeing holders
+        5 => Err(NetworkError::GetRecordError(GetRecordError::NotEnoughCopies { record: other_rec.clone(), expected: 3, got: 1 })),
+        6 => Err(NetworkError::GetRecordError(GetRecordError::RecordDoesNotMatch(other_rec.clone()))),
         0 => Ok(Record { key: key.clone(), value: try_serialize_record(&wanted, RecordKind::Chunk).unwrap().to_vec(), publisher: None, expires: None }),
         // a holder substitutes other content under the requested key
         1 => Ok(Record { key: key.clone(), value: try_serialize_record(&other, RecordKind::Chunk).unwrap().to_vec(), publisher: None, expires: None }),
@@ -46,7 +50,7 @@ fn c15_chunk() {
         3 => Ok(Record { key: key.clone(), value: vec![0x91], publisher: None, expires: None }),
         _ => Err(NetworkError::GetRecordError(GetRecordError::RecordNotFound)),
     };
-    note(format!("reply: {}", ["requested chunk", "other chunk under the requested key", "record of another kind", "garbage", "not found"][what]));
+    note(format!("reply: {}", ["requested chunk", "other chunk under the requested key", "record of another kind", "garbage", "not found", "not enough copies (carrying another chunk)", "does not match (carrying another chunk)"][what]));
     let c = client(reply);
     let got = block_on(c.chunk_get(addr));
     match got {
@@ -83,7 +87,13 @@ fn c15_vault() {
     let (fa, va) = (choice(2) == 1, choice(2) == 1);
     let pa = mk(b"version-a", ca, fa, va);
     let rec = |p: &Scratchpad| Record { key: key.clone(), value: try_serialize_record(p, RecordKind::Scratchpad).unwrap().to_vec(), publisher: None, expires: None };
-    let (reply, b_info) = if split {
+    let err_with_record = if split { 0 } else { choice(3) };
+    let (reply, b_info) = if err_with_record == 1 {
+        // too few holders answered; the error carries the one version they returned
+        (Err(NetworkError::GetRecordError(GetRecordError::NotEnoughCopies { record: rec(&pa), expected: 3, got: 1 })), None)
+    } else if err_with_record == 2 {
+        (Err(NetworkError::GetRecordError(GetRecordError::RecordDoesNotMatch(rec(&pa)))), None)
+    } else if split {
         let (fb, vb) = (choice(2) == 1, choice(2) == 1);
         let pb = mk(b"version-b", cb, fb, vb);
         let mut result_map = std::collections::HashMap::new();
@@ -93,7 +103,7 @@ fn c15_vault() {
     } else {
         (Ok(rec(&pa)), None)
     };
-    note(format!("split={split} a: foreign={fa} valid={va}  b: {:?}", b_info));
+    note(format!("split={split} error_reply_carrying_a={} a: foreign={fa} valid={va}  b: {:?}", ["no", "NotEnoughCopies", "RecordDoesNotMatch"][err_with_record], b_info));
     let c = client(reply);
     let got = block_on(c.get_vault_from_network(&owner));
     let a_ok = !fa && va;
@@ -117,7 +127,9 @@ fn c15_vault() {
         }
         Err(_) => {
             cover("error");
-            if a_ok || b_ok {
+            if err_with_record != 0 {
+                cover("error_reply_with_record_refused");
+            } else if a_ok || b_ok {
                 check_bool("vault:authentic_version_available_but_read_failed", false);
             }
         }
